@@ -59,6 +59,25 @@ def prove_all():
     base = z3.Implies(z3.And(Ff(0) == 0, Gg(0) == 0), Ff(0) == Gg(0))
     step = z3.Implies(z3.And(i >= 0, i < n, Ff(i) == Gg(i), f(i) == g(i), Ff(i + 1) == Ff(i) + f(i), Gg(i + 1) == Gg(i) + g(i)), Ff(i + 1) == Gg(i + 1))
     out.append(("L6 equal summands => equal prefix sums", _valid(base) and _valid(step)))
+    # L9 count-of-trues bracket.  For np.flatnonzero's Skolem functions (pos strictly increasing over [0,mc), mask(pos(t)), every true position p
+    # has rank(p) in [0,mc) with pos(rank(p)) = p) and K(0)=0, K(i+1)=K(i)+[mask(i)]:   0 <= K(i) <= mc,  pos(K(i)-1) < i <= pos(K(i))  (where defined).
+    # The instances of the Skolem axioms that the step needs are written out (quantifier-free validity check).
+    mask = z3.Function("mask", Int, z3.BoolSort())
+    pos, rank, K = z3.Function("pos", Int, Int), z3.Function("rank", Int, Int), z3.Function("K", Int, Int)
+    mc = z3.Int("mc")
+    rng = lambda t: z3.And(t >= 0, t < mc)
+    P = lambda j: z3.And(K(j) >= 0, K(j) <= mc, z3.Implies(K(j) > 0, pos(K(j) - 1) < j), z3.Implies(K(j) < mc, pos(K(j)) >= j))
+    pos_ax = lambda t: z3.Implies(rng(t), z3.And(pos(t) >= 0, pos(t) < n, mask(pos(t)), rank(pos(t)) == t))
+    strict = lambda a_, b_: z3.Implies(z3.And(rng(a_), rng(b_), a_ < b_), pos(a_) < pos(b_))
+    rank_ax = lambda p_: z3.Implies(z3.And(p_ >= 0, p_ < n, mask(p_)), z3.And(rng(rank(p_)), pos(rank(p_)) == p_))
+    base = z3.Implies(z3.And(K(0) == 0, mc >= 0, pos_ax(z3.IntVal(0))), P(z3.IntVal(0)))
+    r_ = rank(i)
+    step = z3.Implies(z3.And(0 <= i, i < n, mc >= 0, P(i), K(i + 1) == K(i) + z3.If(mask(i), 1, 0),
+                             pos_ax(K(i)), pos_ax(K(i) - 1), pos_ax(K(i) + 1), rank_ax(i),
+                             strict(r_, K(i) - 1), strict(K(i) - 1, r_), strict(K(i), r_), strict(r_, K(i)), strict(K(i), K(i) + 1), strict(K(i) - 1, K(i))),
+                      P(i + 1))
+    last = z3.Implies(z3.And(P(n), pos_ax(K(n))), K(n) == mc)          # ... and the count of all trues is the number of positions
+    out.append(("L9 number of true positions before i brackets flatnonzero's positions", _valid(base) and _valid(step) and _valid(last)))
     return out
 
 
